@@ -18,6 +18,7 @@ def P(qr, qw, tr, tw, **kw):
 PLAN = {
     "C01": P(6000, 75, 200000, 900),
     "C02": P(5000, 75, 150000, 900),
+    "C17": P(1500, 90, 40000, 900, chunk=150),
     "C05": P(1500, 90, 40000, 900, chunk=150),
     "C16": P(2500, 90, 60000, 900),
     "C19": P(2500, 90, 60000, 900),
@@ -35,6 +36,11 @@ PLAN = {
 }
 
 LEVELS = {
+    "C17": {"level": "exploration", "rule": RULE,
+            "text": "bundles built by real uploads (deep nesting, 20-60 siblings, empty and multi-leaf files, hostile names) are mounted read-only, streamed and pre-downloaded; 1..4 caller tasks (the FUSE server dispatches each kernel request on its own goroutine) issue random programs of lookup walks, getattr, opendir/readdir with 48..4096-byte buffers resumed at every returned offset, and ReadFile at any offset/length including at and after EOF, while the scheduler interleaves the leaf reads of the streaming cafs (LRU 1-6 buffers, prefetch 0-2); a configuration adds transient blob-read failures (EIO or correct bytes). Oracle: the directory tree implied by the uploaded files",
+            "note": "the file-system methods are called directly (reflect on the unexported fsInternal field): no kernel FUSE transport; the streamed mount is given the bundle's leaf size up front (DESIGN §6 C17)",
+            "components": {"real": ["pkg/fuse read-only file system + bundle_read", "pkg/core publish", "pkg/cafs reader"], "stub": STUB},
+            "assumptions": ["hash verification enabled on the mount"]},
     "C05": {"level": "exploration", "rule": RULE,
             "text": "pairs of trees with controlled overlap (identical, disjoint, kept / changed / removed / renamed / added paths, empty trees) are uploaded as two bundles; the first is downloaded, Diff(local copy, second bundle) is compared with the model's symmetric difference (each path once, A/D/U decided by content key), then Update runs with every local-disk call (mkdir, open, write, close, remove) and every store call a scheduling point - and, in a second configuration, a fault point (EIO, short write + ENOSPC, failing blob reads); a successful Update must leave the directory byte-identical, .datamon metadata included, to a fresh download of the second bundle",
             "note": "weak-replay: the order in which Update schedules its file operations follows Go map iteration inside diffBundles; violations must reproduce on replay",
